@@ -158,3 +158,119 @@ Proof.
   destruct (first_letter_of_shape r0) as [H|[H|(t & H1 & H2 & H3 & _)]]; auto.
   right; right. exists t. auto.
 Qed.
+
+(* ================================================================== round 3 *)
+(* ------------------------------------------------------------------ bibtex_first_letter, every string *)
+Lemma first_letter_of_cons_cong t cs cs' :
+  first_letter_of cs = first_letter_of cs' -> first_letter_of (t :: cs) = first_letter_of (t :: cs').
+Proof. intros H. cbn [first_letter_of]. rewrite H. reflexivity. Qed.
+
+(* on ANY string the iteration over BibTeXString(s) differs from the non-brace tokens of the scan
+   only by stray closing braces, which bibtex_first_letter skips *)
+Lemma iter_scan_all : forall s level sp ts,
+  scan_go s level sp = Ok ts -> sp_ok sp s ->
+  exists cs, iter_go s level sp = Ok cs /\ first_letter_of cs = first_letter_of (nonbrace_texts ts).
+Proof.
+  induction s as [|c t IH]; intros level sp ts H Hok.
+  - destruct sp as [[d acc]|]; cbn [scan_go] in H; inv_ok; cbn [iter_go sp_ok] in *.
+    + rewrite app_nil_r in Hok. eexists; split; [reflexivity|].
+      rewrite !nonbrace_texts_cons, (bs_head_not_brace _ Hok). reflexivity.
+    + eexists; split; reflexivity.
+  - destruct sp as [[d acc]|]; cbn [scan_go] in H; cbn [iter_go sp_ok] in *; unfold is_lbrace, is_rbrace in *.
+    + destruct (N.eqb c c_lbrace) eqn:El.
+      * destruct (Nat.ltb max_level (2 + d)); [discriminate|].
+        apply (IH level (Some (S d, c :: acc)) ts H). cbn [sp_ok]. rewrite bs_head_snoc. exact Hok.
+      * destruct (N.eqb c c_rbrace) eqn:Er.
+        -- destruct d as [|d'].
+           ++ inv_ok. apply N.eqb_eq in Er. subst c.
+              destruct (IH 0 None r Hr I) as (cs & H1 & H2). rewrite H1. cbn [bind].
+              eexists; split; [reflexivity|].
+              rewrite !nonbrace_texts_cons, (bs_head_not_brace _ (bs_head_app_rb _ _ Hok)).
+              cbn [tok_is_brace]. change (is_brace c_rbrace) with true. cbv iota.
+              apply first_letter_of_cons_cong. exact H2.
+           ++ apply (IH level (Some (d', c :: acc)) ts H). cbn [sp_ok]. rewrite bs_head_snoc. exact Hok.
+        -- apply (IH level (Some (d, c :: acc)) ts H). cbn [sp_ok]. rewrite bs_head_snoc. exact Hok.
+    + destruct (N.eqb c c_lbrace) eqn:El.
+      * apply N.eqb_eq in El. subst c.
+        match type of H with context [if ?b then _ else _] => destruct b eqn:Esp end.
+        -- inv_ok. apply andb_prop in Esp as [E0 Eb]. apply Nat.eqb_eq in E0. subst level.
+           rewrite nonbrace_texts_cons. apply (IH 0 (Some (0, [])) r Hr). exact Eb.
+        -- destruct (Nat.ltb max_level (S level)); [discriminate|]. inv_ok.
+           rewrite nonbrace_texts_cons. apply (IH (S level) None r Hr I).
+      * destruct (N.eqb c c_rbrace && Nat.ltb 0 level) eqn:Erl.
+        -- inv_ok. apply andb_prop in Erl as [Er _]. apply N.eqb_eq in Er. subst c.
+           rewrite nonbrace_texts_cons. apply (IH (pred level) None r Hr I).
+        -- inv_ok. destruct (IH level None r Hr I) as (cs & H1 & H2). rewrite H1. cbn [bind].
+           eexists; split; [reflexivity|]. rewrite nonbrace_texts_cons. cbn [tok_is_brace].
+           unfold is_brace, is_lbrace, is_rbrace. rewrite El. cbn [orb].
+           destruct (N.eqb c c_rbrace) eqn:Er.
+           ++ apply N.eqb_eq in Er. subst c. cbn [first_letter_of]. change (is_alpha c_rbrace) with false.
+              cbv iota. exact H2.
+           ++ apply first_letter_of_cons_cong. exact H2.
+Qed.
+
+Lemma first_letter_spec_all_lemma s ts : scan s = Ok ts ->
+  bibtex_first_letter s = Ok (first_letter_of (map fst (filter (fun t => negb (tok_is_brace (fst t))) ts))).
+Proof.
+  intros H. unfold bibtex_first_letter. destruct (iter_scan_all s 0 None ts H I) as (cs & H1 & H2).
+  rewrite H1. cbn [bind]. f_equal. exact H2.
+Qed.
+
+(* ------------------------------------------------------------------ bibtex_abbreviate, every string *)
+Lemma map_res_Ok {X Y} (f : X -> res Y) : forall l ys, map_res f l = Ok ys -> Forall2 (fun x y => f x = Ok y) l ys.
+Proof.
+  induction l as [|x l IH]; intros ys H; cbn [map_res] in H.
+  - injection H as <-. constructor.
+  - inv_ok. constructor; [exact Hr|apply IH; exact Hr0].
+Qed.
+
+Lemma abbreviate_unfold_lemma s d out : bibtex_abbreviate s d = Ok out ->
+  exists pieces letters,
+    split_tex_string_gen sep_hyphen s true false = Ok pieces /\
+    Forall2 (fun p l => bibtex_first_letter p = Ok l) pieces letters /\
+    out = join (match d with None => [46%N; c_hyphen] | Some d => d end)
+               (filter (fun l => negb (match l with [] => true | _ => false end)) letters).
+Proof.
+  unfold bibtex_abbreviate, split_tex_hyphen. intros H. inv_ok.
+  exists r, r0. split; [exact Hr|]. split; [apply map_res_Ok; exact Hr0|reflexivity].
+Qed.
+
+(* ------------------------------------------------------------------ bibtex_width of a special character *)
+Lemma scan_special_go s : forall inner level d acc ts, depth_from d inner = Some 0 ->
+  scan_go (inner ++ c_rbrace :: s) level (Some (d, acc)) = Ok ts ->
+  exists r, scan_go s 0 None = Ok r /\ ts = (rev acc ++ inner, 1) :: ([c_rbrace], 0) :: r.
+Proof.
+  induction inner as [|c t IH]; intros level d acc ts Hd H; cbn [depth_from] in Hd.
+  - injection Hd as ->. cbn [app scan_go] in H. change (is_lbrace c_rbrace) with false in H.
+    change (is_rbrace c_rbrace) with true in H. cbv iota in H. inv_ok. exists r. rewrite app_nil_r. auto.
+  - cbn [app scan_go] in H. unfold is_lbrace, is_rbrace in H.
+    destruct (N.eqb c c_lbrace) eqn:El.
+    + destruct (Nat.ltb max_level (2 + d)); [discriminate|].
+      destruct (IH level (S d) (c :: acc) ts Hd H) as (r & H1 & H2). exists r. split; [exact H1|].
+      rewrite H2. cbn [rev]. rewrite <- app_assoc. reflexivity.
+    + destruct (N.eqb c c_rbrace) eqn:Er.
+      * destruct d as [|d']; [discriminate|].
+        destruct (IH level d' (c :: acc) ts Hd H) as (r & H1 & H2). exists r. split; [exact H1|].
+        rewrite H2. cbn [rev]. rewrite <- app_assoc. reflexivity.
+      * destruct (IH level d (c :: acc) ts Hd H) as (r & H1 & H2). exists r. split; [exact H1|].
+        rewrite H2. cbn [rev]. rewrite <- app_assoc. reflexivity.
+Qed.
+
+(* a special character {\c...} is measured as: the two braces at their own widths, the characters
+   after the backslash and the command letter (non-brace ones) at theirs, minus 1000 *)
+Lemma width_special_lemma cw inner w : balanced inner ->
+  bibtex_width cw (c_lbrace :: c_bslash :: inner ++ [c_rbrace]) = Ok w ->
+  w = (cw c_lbrace
+       + (fold_left (fun a c => if is_brace c then a else a + cw c) (skipn 1 inner) 0 - 1000)
+       + cw c_rbrace)%Z.
+Proof.
+  unfold bibtex_width, scan. intros Hb H. inv_ok. cbn [scan_go] in Hr.
+  change (is_lbrace c_lbrace) with true in Hr. cbn [Nat.eqb andb app] in Hr.
+  change (N.eqb c_bslash c_bslash) with true in Hr. cbv iota in Hr. inv_ok.
+  cbn [scan_go] in Hr0. change (is_lbrace c_bslash) with false in Hr0. change (is_rbrace c_bslash) with false in Hr0.
+  cbv iota in Hr0.
+  destruct (scan_special_go [] inner 0 0 [c_bslash] r0 Hb Hr0) as (r' & H1 & H2).
+  cbn [scan_go] in H1. injection H1 as <-. subst r0.
+  cbn [fold_left width_tok rev app Nat.eqb andb skipn]. change (N.eqb c_bslash c_bslash) with true. change (N.eqb c_lbrace c_bslash) with false. cbv iota.
+  lia.
+Qed.
